@@ -71,12 +71,13 @@ class SimLoop(asyncio.BaseEventLoop):
         return h
 
     def call_later(self, delay, callback, *args, context=None, group=None):
-        return self.call_at(self._vt + delay, callback, *args, context=context, group=group)
+        return self.call_at(self.time() + delay, callback, *args, context=context, group=group)
 
     def external(self, when, callback, *args, group=None):
         """Schedule an event of the outside world (never in the past)."""
-        if when < self._vt:
-            when = self._vt
+        now = self.time()
+        if when < now:
+            when = now
         return self.call_at(when, callback, *args, group=group)
 
     def _timer_handle_cancelled(self, handle):
